@@ -153,6 +153,9 @@ func runC08(c *Ctx) {
 		detail  string
 	}
 	obs := map[string][]winObs{}
+	addObs := map[string][]winObs{}
+	addParse := c.P.Method("protocol/model", "T0x0200AdditionDetails", "parse")
+	addCarriers := map[string]string{"T0x0200": "bytes(jtMsg.Body@28+(len:len(*jtMsg.Body)-28))"}
 	itemObs, itemBad := 0, ""
 	cres := c.RunE1(entries, false, func(a *absint.Analyzer, fn *ssa.Function, st *absint.State, args []absint.Term) {
 		preJTMsg(a, fn, st, args)
@@ -191,6 +194,35 @@ func runC08(c *Ctx) {
 			}
 		}
 		a.OnCall = func(a *absint.Analyzer, st *absint.State, site ssa.CallInstruction, callee *ssa.Function, cargs []absint.Term) {
+			if callee == addParse && addParse != nil && len(cargs) == 2 {
+				// the additional-information items of this carrier: exactly the bytes behind its 28-byte base block
+				w, ok := cargs[1].(*absint.Slice)
+				if !ok {
+					return
+				}
+				o := winObs{carrier: carrier, render: a.Render(w)}
+				switch carrier {
+				case "T0x0704":
+					// body[start+30 : start+2+Len] with Len = u16be(body@start): length Len-28, offset 30 behind the length field
+					o.detail = "the items of a batch entry are the Len-28 bytes behind its base block (up to the end of that entry, not of the batch)"
+					for _, t := range w.Len.Ts {
+						if t.Coef == 1 && t.A.Op == "rd" && len(t.A.Args) == 3 {
+							off := t.A.Args[1].(absint.Int).L
+							width := t.A.Args[2].(absint.Int).L.C
+							rest := w.Len.Sub(absint.AtomLin(t.A))
+							d := w.Off.Sub(off)
+							o.ok = width == 2 && rest.IsConst() && rest.C == -28 && d.IsConst() && d.C == 30
+						}
+					}
+				default:
+					o.ok = o.render == addCarriers[carrier]
+					o.detail = "expected " + addCarriers[carrier]
+				}
+				c.mu.Lock()
+				addObs[carrier] = append(addObs[carrier], o)
+				c.mu.Unlock()
+				return
+			}
 			if callee != base || len(cargs) != 2 {
 				return
 			}
@@ -232,6 +264,22 @@ func runC08(c *Ctx) {
 			}
 		}
 		R.Add("E3.window", carrier+".Parse / base block window", "", st, d)
+	}
+
+	for _, carrier := range []string{"T0x0200", "T0x0704"} {
+		os := addObs[carrier]
+		if len(os) == 0 {
+			R.Add("E3.window", carrier+".Parse / additional-information window", "", report.Violated, "the carrier never calls the additional-information decoder")
+			continue
+		}
+		st, d := report.Discharged, ""
+		for _, o := range os {
+			if !o.ok {
+				st = report.Violated
+				d = fmt.Sprintf("%s hands the additional-information decoder %s; %s", carrier, o.render, o.detail)
+			}
+		}
+		R.Add("E3.window", carrier+".Parse / additional-information window", "", st, d)
 	}
 
 	R.Rules["E3.item-own-bytes"] = "every item appended by the 0x0704 batch decoder is built from that item's bytes only: no field carries a value from an earlier loop iteration"
@@ -462,7 +510,7 @@ func runC08(c *Ctx) {
 	}
 	lr2.flush(c, c.P.RelPos(tlv.Pos()))
 	R.Require("E3.field", 8, "")
-	R.Require("E3.window", 3, "")
+	R.Require("E3.window", 5, "")
 	R.Require("E6.flag", 32+21+15+2+7, "")
 	R.Require("E3.addition-len", 14, "")
 	R.Require("E3.addition-field", 20, "")
